@@ -378,8 +378,18 @@ def check(case, ctx, subprocess_mode=False):
         base = "rdump/%s" % ("mode" if out.startswith("mode:") else out.split(".")[0])
         if subprocess_mode:
             env = dict(os.environ, PYTHONPATH=REPO)
-            p = subprocess.run([sys.executable, "-m", "flow.record.tools.rdump"] + argv, stdout=subprocess.PIPE,
-                               stderr=subprocess.PIPE, env=env, timeout=120)
+            stdin_f = None
+            if case["sources"][0]["kind"] in ("good", "good.gz", "truncated"):
+                # the first source arrives on standard input (codec and container are sniffed from the pipe)
+                stdin_f = open(paths[0], "rb")
+                argv[0] = "-"
+                ctx.cls("source:stdin")
+            try:
+                p = subprocess.run([sys.executable, "-m", "flow.record.tools.rdump"] + argv, stdout=subprocess.PIPE,
+                                   stderr=subprocess.PIPE, env=env, timeout=120, stdin=stdin_f or subprocess.DEVNULL)
+            finally:
+                if stdin_f:
+                    stdin_f.close()
             res_ok, stdout = p.returncode == 0, p.stdout
             if not res_ok:
                 raise Violation(base + "/subprocess-failed", "rdump %r exited %s: %s" % (argv[len(paths):], p.returncode,
@@ -502,5 +512,5 @@ def check_subprocess(case, ctx):
 def parts(tier):
     return [
         Part("in-process", check, strategy=case_strategy(), examples=(300, 4000)),
-        Part("subprocess", check_subprocess, strategy=case_strategy(), examples=(4, 40)),
+        Part("subprocess", check_subprocess, strategy=case_strategy(), examples=(6, 60)),
     ]
